@@ -344,6 +344,13 @@ FIXED = [
     ("<r>text<!--c-->more <?p q?> words and words</r>", 10), ("<r>a<b>unbreakablewordoftwentysix</b>c d</r>", 7),
     ('<r k="v" id="1"><a long-name="x&amp;y" n=""> x </a> y</r>', 12),
     ("<p>aaa bbb <hi>ccc</hi> ddd, eee <hi>fff ggg</hi>. hhh</p>", 11),
+    # siblings with the same content: text, comment and PI nodes compare by content, not by identity
+    ("<l>la la<lb/>la la</l>", 8), ("<l>la la<lb/>la la</l>", 40), ("<p>one<!--sic-->two<!--sic--></p>", 12),
+    ("<p><hi>A</hi>, B<hi>C</hi>, B</p>", 20), ("<r><p>x<?t a?><b/>y<?t a?></p><q>same<i>same</i>same</q></r>", 6),
+    ("<r xml:space=\"preserve\">a <b/>a </r>", 5),
+    # white space beyond ASCII
+    ("<r>first\u00a0entry <b>second \u2003 entry</b>\u2009third\u3000</r>", 9),
+    ("<r xml:space=\"preserve\">x\u00a0y <b xml:space=\"default\">p\u2003\u2003q</b></r>", 30),
 ]
 
 
@@ -423,7 +430,7 @@ def run(ctx, args):
     check_docs(ctx, docs, max_sub=2 if quick else 4, n0=1 if quick else 2, nw=3 if quick else 6,
                seen_rate=0.25 if quick else 0.3)
     return ctx.finish(
-        rule="documents: fixed cases + random mixed-content documents of depth <= 3 (texts with words whose ends are "
+        rule="documents: fixed cases (incl. siblings with identical content, non-ASCII white space) + random mixed-content documents of depth <= 3 (now and then the last child repeats the content of an earlier text / comment / PI that is directly followed by a node; word separators now and then with U+00A0 / U+2003 / U+2009 / U+3000; texts with words whose ends are "
              "biased to width-1/width/width+1, long unbreakable words, escaped characters, comments/PIs between texts, "
              "empty elements, attributes, xml:space preserve/default/invalid at any depth, preserved content with "
              "newlines, preserved elements with nested children holding runs of spaces inside inline elements that fit the line) + conventionally laid out documents + chains of 9-12 nested elements; parsed with reduce_whitespace; serialized from the root and "
